@@ -56,7 +56,9 @@ CHECKS = {
     technique='Coq proof (resolution agrees with dynamic lookup under the chain invariant) + differential correspondence'),
  'C08': dict(
     text='Theorems (Coq, any state, any sub-evaluator returning literals unchanged): every rewrite rule of optimize (if/do/&&/||/+/* folding) is an equation of the evaluator: '
-         'same value, same type, same state; folded operands are literals only. PARTIAL: congruence inside arbitrary programs and float products are decided by the '
+         'same value, same type, same state; folded operands are literals only; T-opt for a fragment, congruence included (OptRo.v): for every expression built from '
+         'integer/boolean/string literals, names, + - * ** mod, comparison, logic, bitwise operators, slice, if and do, nested arbitrarily, a completed evaluation of the '
+         'unoptimised expression is reproduced (value and state) by the optimised one. PARTIAL: expressions outside the fragment (binders, effects, data positions) and float products are decided by the '
          'differential check (with vs without the pass, exhaustive small trees).' + DIFF,
     technique='Coq proof (each optimizer rule is an evaluator equation) + differential correspondence'),
  'C09': dict(
